@@ -385,6 +385,9 @@ func runFile(r *ev.Run, fc fileCase) {
 	}
 	ctx := context.Background()
 	st := &memory.Storage{}
+	// blobserver.GetHub keeps every storage that received a blob through
+	// blobserver.Receive* reachable for the life of the process: drop the contents.
+	defer emptyStore(st)
 	src := &srcReader{data: data, shape: fc.Shape, rng: rng}
 	viol := func(sig, format string, a ...any) {
 		r.Violation(sig, fmt.Sprintf("file of %d bytes (%s, %s), source reader %q: ", fc.Length, fc.Content, fc.Sub, fc.Shape)+fmt.Sprintf(format, a...), fc)
